@@ -224,8 +224,13 @@ def run_case(case):
             raise Violation('C08:single-point-value', 'pdf of one point %r vs batched %r; %s' % ((v1, v2), a[0], ctx))
     # gradient of the log density at interior draws
     ng = 0
-    for r in range(min(n, 3)):
-        x = X[r]
+    # interior draws, plus the same draws with one coordinate set to exactly 0.0 / -0.0 (where zero is interior)
+    gpoints = [X[r] for r in range(min(n, 3))]
+    for r in range(min(n, 2)):
+        z = X[r].copy()
+        z[(case['seed'] + r) % dim] = 0.0 if r == 0 else -0.0
+        gpoints.append(z)
+    for x in gpoints:
         interior = True
         for j in range(dim):
             nd = by[names[j]]
@@ -257,6 +262,8 @@ def run_case(case):
         if not np.allclose(g, g_ref, rtol=1e-4, atol=1e-5 * (1 + np.abs(g_ref).max())):
             raise Violation('C08:gradient-value', 'gradient_logpdf(%r) = %r, derivative of the log density is %r; %s' % (x.tolist(), g.tolist(), g_ref.tolist(), ctx))
         ng += 1
+        if np.any(x == 0):
+            labels.append('gradient-at-a-zero-coordinate')
     # gradient is zero where the log density is -inf
     with np.errstate(all='ignore'):
         lo_ = ref_pdf(nodes, names, O, log=True)
